@@ -40,7 +40,8 @@ def case(draw):
     for o in ("--keep-chain", "--whitespace", "--drop-water"):
         if draw(st.integers(0, 3)) == 0:
             opts.append(o)
-    return dict(part="e2e", desc=desc, ff=draw(st.sampled_from(strat.FFS)), opts=opts)
+    ff = draw(st.sampled_from(strat.FFS))
+    return dict(part="e2e", desc=desc, ff=ff, opts=opts + e2e.neutral_opts(draw, ff, opts))
 
 
 def check(case):
